@@ -47,7 +47,7 @@ type LitElem struct {
 }
 
 type SOp struct {
-	K     string    `json:"k"` // as op def mul muld app apps cp ms md lk2 call rcv as2 clit
+	K     string    `json:"k"` // as op def mul muld app apps cp ms md lk2 call rcv as2 clit cnm rsw
 	L     *LExp     `json:"l,omitempty"`
 	R     *RExp     `json:"r,omitempty"`
 	C     int       `json:"c,omitempty"`
@@ -68,6 +68,10 @@ type SOp struct {
 	Rdx   bool      `json:"rdx,omitempty"`  // lk2 in the := form: x is already declared in the scope (assigned, not created)
 	Rdok  bool      `json:"rdok,omitempty"` // … same for ok
 	Sel   *LExp     `json:"sel,omitempty"`
+	P     *LExp     `json:"p,omitempty"`    // cnm: the variable whose address is passed
+	Sel2  *LExp     `json:"sel2,omitempty"` // cnm: r<sel2> = (*q)<sel3>
+	Sel3  *LExp     `json:"sel3,omitempty"`
+	Vals  []Val     `json:"vals,omitempty"`  // rsw: the two values assigned to the named results
 	Elems []LitElem `json:"elems,omitempty"` // clit: the operands of the literal
 	Keyed bool      `json:"keyed,omitempty"` // clit: rendered with keys (omitted components are zero)
 	Succ  bool      `json:"succ,omitempty"`  // as2: the assertion holds (the interface value holds R); otherwise it holds a string
@@ -256,6 +260,10 @@ func (o *SOp) sexp() string {
 		return fmt.Sprintf("(lk2 %s %d %d %s %s %s %s %s)", b01(o.IsDef), o.X, o.Ok, o.M.sexp(), o.Ke.sexp(), zero(ty(o.T)).sexp(), b01(o.Rdx), b01(o.Rdok))
 	case "call":
 		return fmt.Sprintf("(call %s %s %s %d %s)", b01(o.IsDef), o.L.sexp(), o.Sel.sexp(), o.C, o.R.sexp())
+	case "cnm":
+		return fmt.Sprintf("(cnm %s %s %s %s %d %s %s %s)", b01(o.IsDef), o.L.sexp(), o.P.sexp(), o.Sel.sexp(), o.C, o.Sel2.sexp(), o.Sel3.sexp(), zero(ty(o.T)).sexp())
+	case "rsw":
+		return fmt.Sprintf("(rsw %s %s %s %s %s)", b01(o.IsDef), o.Ls[0].sexp(), o.Ls[1].sexp(), o.Vals[0].sexp(), o.Vals[1].sexp())
 	case "rcv":
 		return fmt.Sprintf("(rcv %s %s %s)", b01(o.IsDef), o.L.sexp(), o.R.sexp())
 	case "clit":
@@ -298,7 +306,11 @@ func (o *SOp) binds() ([]int, []*Type) {
 			}
 		}
 		return xs, ts
-	case "app", "apps", "call", "rcv", "clit":
+	case "rsw":
+		if o.IsDef {
+			return []int{o.Ls[0].X, o.Ls[1].X}, []*Type{ty(o.T), ty(o.T)}
+		}
+	case "app", "apps", "call", "rcv", "clit", "cnm":
 		if o.IsDef {
 			return []int{o.L.X}, []*Type{ty(o.T)}
 		}
@@ -574,6 +586,21 @@ func (r *render) stmt(o *SOp) string {
 		s = "delete(" + r.lexp(o.M) + ", " + r.iexp(o.Ke) + ")"
 	case "lk2":
 		s = r.name(o.X) + ", " + r.name(o.Ok) + asg + r.lexp(o.M) + "[" + r.iexp(o.Ke) + "]"
+	case "cnm":
+		// func fN(q *T) (r T) { r<sel1> = k; r<sel2> = (*q)<sel3>; return }
+		t := ty(o.T)
+		fn := fmt.Sprintf("named%d", len(r.funcs))
+		inR := &render{e: env{0: t}, names: map[int]string{0: "r"}}
+		inQ := &render{e: env{0: t}, names: map[int]string{0: "(*q)"}}
+		r.funcs = append(r.funcs, fmt.Sprintf("func %s(q *%s) (r %s) {\n\t%s = %d\n\t%s = %s\n\treturn\n}\n", fn, t.Src, t.Src,
+			inR.dest(o.Sel), o.C, inR.dest(o.Sel2), inQ.lexp(o.Sel3)))
+		s = r.dest(o.L) + asg + fn + "(&" + r.lexp(o.P) + ")"
+	case "rsw":
+		// func swN() (a, b T) { a, b = v1, v2; return b, a }
+		t := ty(o.T)
+		fn := fmt.Sprintf("swap%d", len(r.funcs))
+		r.funcs = append(r.funcs, fmt.Sprintf("func %s() (a, b %s) {\n\ta, b = %s, %s\n\treturn b, a\n}\n", fn, t.Src, goLit(t, o.Vals[0]), goLit(t, o.Vals[1])))
+		s = r.dest(&o.Ls[0]) + ", " + r.dest(&o.Ls[1]) + asg + fn + "()"
 	case "clit":
 		s = r.dest(o.L) + asg + r.litText(ty(o.T), nil, o.Elems, o.Keyed)
 	case "rcv":
